@@ -86,3 +86,17 @@ Example C13_F10_witness :
             st_event (g_st (run g [OReady])) = EvReadyRequested /\ st_round (g_st (run g [OReady])) = Preflop /\
             map p_wager (g_players (run g [OReady])) = [0; 0; 0].
 Proof. eexists. split; [vm_compute; reflexivity|]. vm_compute. auto. Qed.
+
+(* the deal is followed by the request for the blinds in every configuration but the one of the known
+   finding F10 (no dealer blind, no small blind, a big blind) *)
+Theorem C13_blinds_requested_unless_F10 :
+  forall g, snd (enter_preflop g) = Ok ->
+    st_event (g_st (fst (enter_preflop g))) = EvBlindsRequested \/
+    (m_bdealer (g_meta g) = 0 /\ m_bsb (g_meta g) = 0 /\ 0 < m_bbb (g_meta g)).
+Proof.
+  intros g. unfold enter_preflop. destruct (negb _); [discriminate|]. intros _.
+  destruct ((m_bdealer (g_meta g) =? 0) && (m_bsb (g_meta g) =? 0) && (0 <? m_bbb (g_meta g))) eqn:E; [right|left; reflexivity].
+  apply andb_prop in E as [E E3]. apply andb_prop in E as [E1 E2].
+  apply Z.eqb_eq in E1. apply Z.eqb_eq in E2. apply Z.ltb_lt in E3. auto.
+Qed.
+Print Assumptions C13_blinds_requested_unless_F10.
